@@ -1,7 +1,48 @@
 #!/usr/bin/env python3
-"""Print the 'states / transitions' columns of DESIGN.md section 9.2 from the committed evidence files (quick tier)."""
-import json, glob
-for f in sorted(glob.glob('/verif/evidence/C*.json')):
-    d = json.load(open(f))
-    c = d['coverage']
-    print(d['property_id'], d['tier'], {k: c.get(k) for k in ('states', 'transitions', 'validated', 'nontrivial', 'cases') if k in c} or list(c.keys())[:12])
+"""Refresh the numeric columns of DESIGN.md section 9.2 (cases / states / transitions / wall) from the committed evidence files
+(quick tier) and append the session-3 additions to the description column (idempotent).  Usage: ./tools_design_table.py [--write]"""
+import json, re, sys
+ADD = {
+ 'C01': 'a third of the programs explored on a deep copy; padding modes, negative flatten start, cat(axis=); 9 hand-written models (tied weights, prefix names, 2D front-end + squeeze, shared ConstantPad1d with receptive-field labels)',
+ 'C02': 'summary() read before any forward AND after the export; quantizers configured through qinfo (asymmetric weights, PACT clip) on depth-1 programs',
+ 'C03': 'fork / statement-form in-place user blocks; exported fx graph walked (no loser node, no dangling node); a third of the programs on a deep copy',
+ 'C04': 'three usage protocols rotating over the programs (plain / train_net_only first / train switches off)',
+ 'C05': 'deep-copy protocol; flatten spellings in front of the Linear head',
+ 'C06': 'five protocols on the live object (cost_specification setter single / dict, train_selection off / on); choice blocks invoked at two resolutions (finding D45)',
+ 'C07': 'padding modes (reflect / circular / replicate)',
+ 'C08': 'four usage protocols rotating (train_net_only first / no_grad evaluation loop / switches off); summary read BEFORE the export compared with it; 14 hand-written output-structure models (concat / nested concat / tuple outputs)',
+ 'C12': 'ODiMO_MPS (default cost + reduction, w in {2,8}, a = 8) through the soft-mode oracle; PIT lattice on a deep copy; export() between two cost reads',
+ 'C13': 'single-element channels also as a 1-D weight tensor',
+ 'C14': 'integerized-cold protocol (clip values written / loaded, integerize_arch before any inference)',
+ 'C15': 'user constraint over a non-scalar spec field; constrained pattern registered with the default function object',
+ 'C17': 'seed networks with adversarial attribute names, strict load first',
+ 'C18': 'no-bias metrics in the specification letters; observers between the forward and the backward pass of a training step',
+ 'C19': 'one shared DUCCIO instance called in four other visiting orders; unconstrained (+inf) targets',
+}
+p = '/verif/DESIGN.md'
+s = open(p).read()
+out = []
+for line in s.split('\n'):
+    m = re.match(r'^\| (C\d\d) \| ([^|]+) \| ([^|]+) \| ([^|]+) \| ([^|]+) \| ([^|]+) \| (.*) \|$', line)
+    if m and '### 9.2' in s[:s.index(line)] and '### 9.3' not in s[:s.index(line)]:
+        pid = m.group(1)
+        try:
+            d = json.load(open(f'/verif/evidence/{pid}.json'))
+        except Exception:
+            out.append(line); continue
+        c = d['coverage']
+        fmt = lambda n: f'{int(n):,}'.replace(',', ' ')
+        cases = c.get('cases_done', m.group(3).strip())
+        desc = m.group(7)
+        if pid in ADD and ADD[pid] not in desc:
+            desc = desc + '; **session 3:** ' + ADD[pid]
+        wall = d.get('wall_s')
+        line = f"| {pid} | {m.group(2).strip()} | {fmt(cases) if str(cases).isdigit() or isinstance(cases, (int, float)) else cases} | {fmt(c['states'])} | {fmt(c['transitions'])} | {round(wall) if wall else '?'} s | {desc} |"
+    out.append(line)
+new = '\n'.join(out)
+if '--write' in sys.argv:
+    open(p, 'w').write(new)
+else:
+    for a, b in zip(s.split('\n'), out):
+        if a != b:
+            print(b[:200])
